@@ -43,7 +43,7 @@ PROPS = {
     "C01": dict(
         stages=[dict(test="TestC01", quick=(16, 40), thorough=(16, 2500), timeout=dict(quick=600, thorough=3300))],
         rule="case = validator set (3-7, some inactive), expiration 1..6|20, max report size, and a list of 15-60 late-bound ops "
-             "(request / report variants exact|missing|extra|wrong|oversize|exit|empty / burst of reports / end block / activate) "
+             "(request / report variants exact|missing|extra|wrong|oversize|exit|empty|adjacent or non-adjacent duplicate id|reordered ids (3-raw-request script) / burst of reports / end block / activate / owner or foreign edits of an oracle script or data source that keep its behaviour) "
              "run on the real app; non-trivial = >=1 request resolved by reports AND >=1 of {rejected report, report accepted "
              "after resolve, report in the expiry block, EXPIRED result, two requests resolved in one block}; distinct = hash of case JSON",
         explanation="reference model of the request life cycle (accept/reject per report, resolve at end of the block of the min_count-th "
@@ -107,7 +107,7 @@ PROPS = {
     ),
     "C10": dict(
         stages=[dict(test="TestC10", quick=(16, 30), thorough=(16, 2000), timeout=dict(quick=900, thorough=3300))],
-        rule="same op vocabulary as C05 with more partial/complete signature submissions; non-trivial = >=1 time-out of an attempt with a "
+        rule="same op vocabulary as C05 with more partial/complete signature submissions and governance changes of MaxSigningAttempt (incl. a constructed sequence lowering it below/at/above the attempt number of a waiting signing); non-trivial = >=1 time-out of an attempt with a "
              "partial set of submitters AND >=1 success after a retry; distinct = hash of case JSON",
         explanation="per-signing reference model (status, attempt, assignees, expiry = creation height + SigningPeriod) checked after every "
                     "block against events and state: success exactly when all assignees of the current attempt submitted, time-out exactly at "
@@ -126,7 +126,7 @@ PROPS = {
              "proto/full ABI/partial ABI, feeds prices fixed-point/tick ABI, tunnel packet, transition, text) run through the real handlers, plus a "
              "second request differing in exactly one field; non-trivial = oracle payload with non-empty result or feeds/tunnel payload with >=2 "
              "prices. Tick: prices at floor/ceil of every sampled tick boundary +-1, fixed values and log-uniform values; non-trivial = p within one "
-             "price unit of a boundary. Thorough adds EVERY tick of the supported range with the four boundary prices; distinct = hash of case JSON",
+             "price unit of a boundary. Thorough adds EVERY tick of the supported range with the four boundary prices. Chain: TSS history engine with user and governance-executed (sender = module authority) MsgRequestSignature over internal content kinds; non-trivial = >=2 signed messages parsed back and an oracle result or an internal-kind attempt; distinct = hash of case JSON",
         explanation="reference layout written from the statement (keccak(originator)|u64 time|u64 id|content, tags = keccak(name)[:4], hand-written ABI and "
                     "proto encoders), round trip through go-ethereum abi / proto decoders with independently declared types, injectivity under single-"
                     "field change, pairwise distinct tags, internal kinds flagged; tick T must satisfy price(T) <= p < price(T+1) against a 384-bit "
@@ -185,7 +185,7 @@ PROPS = {
         stages=[dict(test="TestC16", pkg="c16", quick=(16, 18), thorough=(16, 2000), timeout=dict(quick=900, thorough=3400))],
         rule="case = 2-4 accounts, 2-3 bonded rate-1 validators, genesis AllowedDenoms in {[uband],[uband,uatom],[],[uatom]}, and 20-60 late-bound ops "
              "(stake/unstake multi-denom, delegate/undelegate/redelegate/full removal, lock updates from vaults feeds (real MsgVote) / feedsx / tunnel / a "
-             "(keeper level), vault deactivation, allowed-denom change through gov) with amounts at lock-1/lock/lock+1, 0, 2^63, 2^64-1; non-trivial = "
+             "(keeper level), vault deactivation, allowed-denom change through gov, re-locks relative to the vault's old lock after such a change: old-1/old/old+1/mid/power+1) with amounts at lock-1/lock/lock+1, 0, 2^63, 2^64-1; non-trivial = "
              "an account with >=2 active vaults of different locks AND a withdrawal rejected while leaving exactly maxLock-1; distinct = hash of case JSON",
         explanation="big.Int model of total power and locks: successful withdrawal => total power >= largest active lock; rejected op => full snapshot "
                     "(restake stores, delegations, unbondings, balances) unchanged; SetLockedPower succeeds => power <= total and vault active; "
@@ -225,7 +225,7 @@ PROPS = {
         stages=[dict(test="TestC07", pkg="c07", quick=(16, 25), thorough=(16, 2500), timeout=dict(quick=900, thorough=3300))],
         rule="case = 2-5 voters (delegations + restaked coins, 25% 'rich' with 2^66 of an 18-decimals token), feeds params (threshold, min/max "
              "interval, MaxCurrentFeeds 1-5, update interval 1-5) and a list of late-bound ops: votes with symbolic powers (threshold*k+-1, remaining "
-             "power +-1, 2^62/2^63-1 constants, int64-wrapping combinations, empty/duplicate/too many signals), re-votes, delegate/undelegate/"
+             "power +-1, 2^62/2^63-1 constants, int64-wrapping combinations, empty/duplicate/too many signals), re-votes (same total identical/redistributed, totals relative to the current lock), restake AllowedDenoms changes through real governance proposals (power drops below the lock without any hook running), delegate/undelegate/"
              "stake/unstake, block ends across update blocks; non-trivial = >=1 accepted re-vote changing >=2 signals AND >=1 vote whose true sum is "
              "within 1 of the voter's power or above int64; distinct = hash of case JSON",
         explanation="big.Int reference model: accepted vote => mathematical sum <= voter power (no wrap-around acceptance); after every block Vote "
